@@ -19,6 +19,9 @@ var HostileStrings = []string{"", "a", "a b", "\"", "\\", "\"\"\"", "\\\"\"\"", 
 	"\U000E0001", "\uE000", "\U0010FFFF", "a\rb", "a\r\nb", "#notcomment", "$var", "{}", "[1,2]", "\\u0041", "\\", "\"\"", "\"\"\"\"", "x\"\"\"", "\"\"\"x", "'", "/", "\b\f",
 	"on", "query", "null", "true"}
 
+// SpecifiedDirectives are the directive names every schema has without declaring them.
+var SpecifiedDirectives = []string{"include", "skip", "deprecated", "specifiedBy", "defer", "oneOf"}
+
 func Name() *rapid.Generator[string]     { return rapid.SampledFrom(namePool) }
 func TypeName() *rapid.Generator[string] { return rapid.SampledFrom(typeNamePool) }
 
@@ -405,6 +408,10 @@ func SchemaDocTree() *rapid.Generator[SchemaTree] {
 				order = append(order, TopItem{"schemaext", len(d.SchemaExts) - 1})
 			case 2:
 				dd := &ref.DirectiveDef{Desc: desc(t), Name: Name().Draw(t, "ddname"), Args: argDefs(t), Repeatable: rapid.Bool().Draw(t, "rep")}
+				if rapid.IntRange(0, 3).Draw(t, "specified") == 0 {
+					// a document may declare the directives of the specification itself (section 3.13)
+					dd.Name = rapid.SampledFrom(SpecifiedDirectives).Draw(t, "specname")
+				}
 				nl := rapid.IntRange(1, 4).Draw(t, "nloc")
 				for j := 0; j < nl; j++ {
 					dd.Locations = append(dd.Locations, rapid.SampledFrom(AllLocations).Draw(t, "loc"))
